@@ -21,6 +21,14 @@ use resolve_inputs::resolve_inputs;
 mod scan_dir;
 use scan_dir::scan_dir;
 
+/// Re-exports for the verification harness (feature `verif`)
+#[cfg(feature = "verif")]
+pub mod execute_verif {
+    pub use super::pp::{preprocess, Directive, DirectiveType, PpResult};
+    pub use super::resolve_inputs::resolve_inputs;
+    pub use super::scan_dir::scan_dir;
+}
+
 /// Run txtpp with the given config
 ///
 /// This is the main entry point for txtpp. It takes a [`Config`] and runs txtpp.
@@ -90,6 +98,8 @@ impl Txtpp {
         };
 
         let result = runtime.run_internal();
+        #[cfg(feature = "verif")]
+        crate::verif::run_finished();
         if result.is_err() {
             let _ = runtime
                 .progress
@@ -135,6 +145,8 @@ impl Txtpp {
         }
 
         loop {
+            #[cfg(feature = "verif")]
+            crate::verif::main_yield();
             let data = match self.recv.try_recv() {
                 Ok(data) => data,
                 Err(TryRecvError::Empty) => {
@@ -244,7 +256,11 @@ impl Txtpp {
             .print_status(verbs::SCANNING, &dir.to_string(), Color::Yellow, true);
         let send = self.send.clone();
         log::info!("scanning directory: {dir}");
+        #[cfg(feature = "verif")]
+        let verif_id = crate::verif::task_spawned(0, dir.as_path(), true);
         self.threadpool.execute(move || {
+            #[cfg(feature = "verif")]
+            let _verif_guard = crate::verif::TaskGuard::begin(verif_id);
             let result = scan_dir(&dir, recursive);
             send.send(TaskResult::ScanDir(result))
                 .expect("cannot send result")
@@ -278,7 +294,11 @@ impl Txtpp {
         let mode = self.config.mode.clone();
         let trailing_newline = self.config.trailing_newline;
         log::info!("processing file: {file}");
+        #[cfg(feature = "verif")]
+        let verif_id = crate::verif::task_spawned(1, file.as_path(), is_first_pass);
         self.threadpool.execute(move || {
+            #[cfg(feature = "verif")]
+            let _verif_guard = crate::verif::TaskGuard::begin(verif_id);
             let result = preprocess(&shell, &file, mode, is_first_pass, trailing_newline);
             send.send(TaskResult::Preprocess(result))
                 .expect("cannot send result")
